@@ -4,6 +4,7 @@ package checks
 
 import (
 	"fmt"
+	"os"
 	"strings"
 	"testing"
 	"time"
@@ -267,6 +268,9 @@ type enumCase struct {
 	HalfFreed bool
 	// HFile: the operations with kinds ending in h go through the handle of the file D0/a, which holds two blocks of data
 	HFile bool
+	// Sweep: 130 further files exist, and a third client looks at all of them while client 0 is held (the cached
+	// copies of the inodes client 0 works on are pushed out of the inode cache meanwhile)
+	Sweep bool
 	Pre   []cOp
 	Op0       cOp
 	Prog1     []cOp
@@ -368,6 +372,18 @@ func enumSpace() []enumCase {
 			}
 		}
 	}
+	// a request that is refused after it has changed cached state (RENAME to a name that is too long), held before
+	// and at its abort, while a second client waits for the same directory and a third pushes that directory's
+	// inode out of the cache by looking at 130 other files
+	for _, low := range []bool{false, true} {
+		_ = low
+		for _, prog := range [][]cOp{{{Kind: "lookup", Dir: D, Name: "a"}}, {{Kind: "create", Dir: D, Name: "a"}}, {{Kind: "remove", Dir: D, Name: "a"}},
+			{{Kind: "lookup", Dir: D, Name: "a"}, {Kind: "create", Dir: D, Name: "b"}}, {{Kind: "rename", Dir: D, Name: "a", Dir2: D, Name2: "b"}}} {
+			for hook := 0; hook < 8; hook++ {
+				cases = append(cases, enumCase{Sweep: true, Pre: []cOp{{Kind: "create", Dir: D, Name: "a"}}, Op0: cOp{Kind: "renamelong", Dir: D, Name: "a"}, Prog1: prog, Hook: hook})
+			}
+		}
+	}
 	// a file reached through its handle while its name is removed, replaced or moved
 	wh := func(off uint64, n int, tag uint32) cOp {
 		return cOp{Kind: "writeh", Off: off, Data: string(patternData(tag, uint64(n))), Stable: 2}
@@ -425,18 +441,25 @@ func makeHalfFreed(w *cWorld) bool {
 	return len(Fsck(w.S.N.VerifFsState(), FsckOpts{}).HalfFreedFree) > 0
 }
 
-func TestC03Enum(t *testing.T) {
+func TestC03Enum(t *testing.T) { enumLin(t, "C03", nil) }
+
+// enumLin runs the enumerated cases (all, or those filter selects) under the linearizability oracle and reports
+// violations under prop.
+func enumLin(t *testing.T, prop string, filter func(enumCase) bool) {
 	shard, nshards := EnvInt("VERIF_SHARD", 0), EnvInt("VERIF_NSHARDS", 1)
 	seed := EnvInt("VERIF_SEED", 1)
 	cases := enumSpace()
 	St.Exhaustive(Thorough())
 	run, paused := 0, 0
 	for i, ec := range cases {
-		if i%nshards != shard {
+		if i%nshards != shard || (filter != nil && !filter(ec)) {
 			continue
 		}
-		if !Thorough() && Hash(seed, i)%4 != 0 && !ec.HalfFreed {
+		if !Thorough() && Hash(seed, i)%4 != 0 && !ec.HalfFreed && !ec.Sweep {
 			continue
+		}
+		if only := os.Getenv("VERIF_ENUM_ONLY"); only == "sweep" && !ec.Sweep {
+			continue // (debugging aid: one family of cases)
 		}
 		size := uint64(9000)
 		if ec.FullDisk {
@@ -453,6 +476,12 @@ func TestC03Enum(t *testing.T) {
 			if makeHalfFreed(w) {
 				St.Class("enumerated_cases_starting_with_a_half_freed_inode")
 			}
+		}
+		if ec.Sweep {
+			if err := w.addExtras(130); err != nil {
+				t.Fatalf("setup: %v", err)
+			}
+			St.Class("enumerated_cases_with_a_third_client_pushing_inodes_out_of_the_cache")
 		}
 		api := w.S.API()
 		var ops []porcupine.Operation
@@ -491,6 +520,9 @@ func TestC03Enum(t *testing.T) {
 			op0.H = hfile
 		}
 		progs := [][]cOp{{op0}, prog1}
+		if ec.Sweep {
+			progs = append(progs, []cOp{{Kind: "sweep"}})
+		}
 		pause := &pauseSpec{Client: 0, Hook: ec.Hook, MaxWait: 20 * time.Millisecond}
 		r := w.runConcurrentFrom(progs, 0, false, 10*time.Second, pause, clock)
 		all := append(ops, r.Ops...)
@@ -499,8 +531,8 @@ func TestC03Enum(t *testing.T) {
 		detail["full_disk"], detail["history"], detail["enum_index"] = ec.FullDisk, describeHistory(all), i
 		fail := func(format string, a ...any) {
 			msg := fmt.Sprintf(format, a...)
-			St.Violation("C03", msg, detail)
-			t.Fatalf("C03: %s\n%v", msg, detail)
+			St.Violation(prop, msg, detail)
+			t.Fatalf("%s: %s\n%v", prop, msg, detail)
 		}
 		if r.Slow {
 			St.Class("call_too_slow_for_the_harness_not_judged")
